@@ -32,13 +32,13 @@ import (
 // Gates (= the events the explorer orders, all orders are enumerated): the start of every operation
 // but the first of a script (the first operations are all in flight from the beginning),
 // every registry call (GrainExists, GetGrain, the atomic put-if-absent "NX", PutGrain, RemoveGrain),
-// every Grain.OnActivate, and the delivery of every remote request at the target node. Faults, cost 1
+// every Grain.OnActivate and Grain.OnDeactivate, and the delivery of every remote request at the target node. Faults, cost 1
 // each: OnActivate fails (terminal error: the retrier stops at once, no virtual time passes),
 // PutGrain fails, GetGrain fails, the put-if-absent fails (error answers; the operation is not applied).
 //
 // Oracle
 //   * at every quiescent point between two events: the grain instances that are live (OnActivate
-//     returned nil, OnDeactivate not yet entered) belong to at most ONE node;
+//     returned nil, OnDeactivate not yet left its gate) belong to at most ONE node;
 //   * at final quiescence (all operations returned, no gate parked): if a node holds a live
 //     instance, the registry record of the identity names exactly that node. (A record left behind
 //     with no live instance anywhere is not covered by the statement - "names the node that holds
@@ -46,8 +46,9 @@ import (
 // The signature of a violation = what is violated + the FIRST registry/holder inconsistency of the
 // execution (the root cause): an OnActivate that succeeded while the record did not name the
 // activating node (with the ownership evidence its operation had: claimed, record-names-self,
-// nx-lost-owner-vanished, ...), a RemoveGrain that deleted the record of a node holding a live instance,
-// a PutGrain that replaced the record of another node.
+// nx-lost-owner-vanished, ...), a RemoveGrain by a node that deleted its own record while it holds a
+// live instance, a RemoveGrain that deleted the record of ANOTHER node (nodes never crash here, so the
+// record was not stale), a PutGrain that replaced the record of another node.
 // ---------------------------------------------------------------------------------------------
 
 type c30State struct {
@@ -117,9 +118,11 @@ func (g *c30Grain) OnActivate(ctx context.Context, props *GrainProps) error {
 	return nil
 }
 
-func (g *c30Grain) OnDeactivate(context.Context, *GrainProps) error {
+func (g *c30Grain) OnDeactivate(ctx context.Context, _ *GrainProps) error {
 	st := c30Cur.Load()
 	if g.isLive {
+		// the instance stays live while its OnDeactivate hook is running (parked on the gate)
+		st.w.wait(ctx, g.liveOn, "OnDeactivate")
 		g.isLive = false
 		st.mu.Lock()
 		st.live[g.liveOn]--
@@ -177,14 +180,12 @@ func (st *c30State) note(node int, op, kind, result string) {
 	case "RemoveGrain":
 		if prev := strings.TrimPrefix(result, "ok:"); prev != result && prev != "-" {
 			st.mu.Lock()
-			for n, nm := range st.w.names {
-				if nm == prev && st.live[n] > 0 {
-					if n == node {
-						st.anomaly("record-removed-by-the-holder-node-while-it-holds-a-live-instance")
-					} else {
-						st.anomaly("record-removed-by-another-node-while-the-named-node-holds-a-live-instance")
-					}
-				}
+			if prev != self {
+				// nodes never crash here: a node that deletes the record of another node has
+				// misjudged it as stale
+				st.anomaly("record-of-another-node-removed")
+			} else if st.live[node] > 0 {
+				st.anomaly("record-removed-by-the-holder-node-while-it-holds-a-live-instance")
 			}
 			st.mu.Unlock()
 		}
